@@ -1,8 +1,11 @@
-(* RunRef.v — runner of family `matchref`: on the core domain the observable
-   is the REFERENCE truth value (Spec/RefMatch.holds), elsewhere the model's
-   own Match result; the Go side prints what the real mongokit.Match returns.
-   Agreement of the two therefore tests, on the real code, the statement of
-   match_ref: core d f -> Match d f = Ok (holds d f). *)
+(* RunRef.v — runner of family `matchref`.  Observable:
+     <Match result> -                     outside the property's domain D1-D4
+     <Match result> <T|F> core            in `core`: the REFERENCE truth value
+     <Match result> <T|F> <signature>     in D1-D4, in the finding class <signature>
+   The Go side prints what the real mongokit.Match returns, the truth value of
+   its own rendering of the reference semantics (harness/ref_match.go) and its
+   own classification; agreement ties the Go reference (used by the model-free
+   oracle `reference`) to Spec/RefMatch.v. *)
 From Lungo.Model Require Import Match RunMatch.
 From Lungo.Spec Require Import RefMatch.
 Open Scope string_scope.
@@ -23,13 +26,20 @@ Definition run_matchref (x : sexp) : option string :=
       match doc_of_sexp d, doc_of_sexp f with
       | Some d', Some f' =>
           if unmodelled_syn (VDoc d') (VDoc f') then Some "UNMODELLED"
-          else if coreb d' f' then Some (if holds d' f' then "T" else "F")
-          else Some (show_res (Match d' f'))
+          else
+            let m := show_res (Match d' f') in
+            let r := if holds d' f' then "T" else "F" in
+            match domain_class d' f' with
+            | DOutside => Some (m ++ " -")
+            | DCore => Some (m ++ " " ++ r ++ " core")
+            | DFinding sig => Some (m ++ " " ++ r ++ " " ++ sig)
+            end
       | _, _ => Some "BAD-CASE"
       end
   | SList [SAtom "iscore"; d; f] =>
       match doc_of_sexp d, doc_of_sexp f with
-      | Some d', Some f' => Some (if coreb d' f' then "CORE" else "NONCORE")
+      | Some d', Some f' =>
+          Some (match domain_class d' f' with DOutside => "OUTSIDE" | DCore => "CORE" | DFinding sig => sig end)
       | _, _ => Some "BAD-CASE"
       end
   | _ => None
